@@ -48,6 +48,8 @@ def parse_kind(parse):
                 return f"int=={norm(other)}"
     if isinstance(t, ast.Call):
         fn = norm(t.func)
+        if fn in ("list", "tuple") and len(t.args) == 1 and not t.keywords:
+            return parse_kind(norm(t.args[0]))      # list(tokens): the same tokens
         if fn in ("int", "float") and len(t.args) == 1 and from_line(t.args[0]):
             picks = "[" in norm(t.args[0])
             return fn + ("-first-token" if picks else "")
